@@ -210,7 +210,7 @@ func (r *Run) finish() {
 			res.Trace = s.Lines
 		}
 		st := res.Stats
-		if st["task_switches"] > 1 || len(res.Faults) > 0 {
+		if st["task_switches"] > 1 || len(res.Faults) > 0 || res.Cases > 1 {
 			res.Nontrivial = true
 		}
 	}
